@@ -70,7 +70,7 @@ pub fn timed_snapshot() -> BTreeMap<usize, (bool, u64)> {
 pub mod sync {
     use super::*;
     use std::ops::{Deref, DerefMut};
-    pub use std::sync::{Arc, LockResult, PoisonError, Weak};
+    pub use std::sync::{Arc, LockResult, PoisonError, TryLockError, TryLockResult, Weak};
     use std::time::Duration;
 
     // ------------------------------------------------------------ Mutex
@@ -92,6 +92,16 @@ pub mod sync {
             match self.inner.lock() {
                 Ok(g) => Ok(MutexGuard { mutex: self, guard: Some(g) }),
                 Err(p) => Err(PoisonError::new(MutexGuard { mutex: self, guard: Some(p.into_inner()) })),
+            }
+        }
+    }
+
+    impl<T> Mutex<T> {
+        pub fn try_lock(&self) -> TryLockResult<MutexGuard<'_, T>> {
+            match self.inner.try_lock() {
+                Ok(g) => Ok(MutexGuard { mutex: self, guard: Some(g) }),
+                Err(TryLockError::WouldBlock) => Err(TryLockError::WouldBlock),
+                Err(TryLockError::Poisoned(p)) => Err(TryLockError::Poisoned(PoisonError::new(MutexGuard { mutex: self, guard: Some(p.into_inner()) }))),
             }
         }
     }
@@ -138,6 +148,23 @@ pub mod sync {
             match self.inner.write() {
                 Ok(g) => Ok(RwLockWriteGuard(g)),
                 Err(p) => Err(PoisonError::new(RwLockWriteGuard(p.into_inner()))),
+            }
+        }
+    }
+
+    impl<T> RwLock<T> {
+        pub fn try_read(&self) -> TryLockResult<RwLockReadGuard<'_, T>> {
+            match self.inner.try_read() {
+                Ok(g) => Ok(RwLockReadGuard(g)),
+                Err(TryLockError::WouldBlock) => Err(TryLockError::WouldBlock),
+                Err(TryLockError::Poisoned(p)) => Err(TryLockError::Poisoned(PoisonError::new(RwLockReadGuard(p.into_inner())))),
+            }
+        }
+        pub fn try_write(&self) -> TryLockResult<RwLockWriteGuard<'_, T>> {
+            match self.inner.try_write() {
+                Ok(g) => Ok(RwLockWriteGuard(g)),
+                Err(TryLockError::WouldBlock) => Err(TryLockError::WouldBlock),
+                Err(TryLockError::Poisoned(p)) => Err(TryLockError::Poisoned(PoisonError::new(RwLockWriteGuard(p.into_inner())))),
             }
         }
     }
